@@ -125,7 +125,7 @@ ITEMS = [
                  assert(self.abs().stack =~= a.stack);
                  assert(self.abs().anchors =~= a.anchors);''')],
          ensures=[
-             ('config_unchanged', 'final(self).budget == old(self).budget && final(self).policy == old(self).policy'),
+             ('config_unchanged', 'final(self).budget == old(self).budget && final(self).policy == old(self).policy && final(self).report.breached == old(self).report.breached'),
              ('C07:step_matches_independent_count', '''({
                   let a = abs_step(old(self).abs(), *ev, old(self).per_doc());
                   match r {
@@ -156,4 +156,41 @@ ITEMS = [
                     } else { self.report.breached },
                     ..self.report }) })''')],
          canaries=['C07:ratio_rule_as_documented']),
+]
+# ---- the public budget check (C07 observe_at: budget::check_yaml_budget): the report is the independent count of the parser's events ----
+ITEMS += [
+    dict(src=B, path='fn check_yaml_budget', props=['C07', 'C01'],
+         attrs='#[verifier::exec_allows_no_decreases_clause]',
+         rewrites=[(r'Result<BudgetReport, ScanError>', 'Result<BudgetReport, ScanErr>', 1, 'R6'),
+                   (r'let parser = Parser::new_from_str\(input\);', 'let mut parser = event_parser_from_str(input);', 1, 'R8'),
+                   (r'for item in parser \{', 'while let Some(item) = parser.next_item() {', 1, 'R3'),
+                   (r'let \(ev, _span\) = item\?;', 'let ev = match item { Ok(__e) => __e, Err(__x) => { return Err(__x); } };', 1, 'R18')],
+         requires=[('limits_below_the_machine_maximum', '''budget.max_events < usize::MAX && budget.max_aliases < usize::MAX && budget.max_nodes < usize::MAX
+                        && budget.max_merge_keys < usize::MAX && budget.max_documents < usize::MAX && budget.max_depth < usize::MAX''')],
+         proofs=[dict(after_re=r'let mut enforcer = BudgetEnforcer::new\(budget, policy\);', ghost=True,
+                      text='let ghost evs = parser.pending(); let ghost mut k: int = 0; let ghost per = policy == EnforcingPolicy::PerDocument;'),
+                 dict(before_re=r'if let Err\(breach\) = enforcer\.observe\(&ev\)', text='assert(ev == evs[k]->Ok_0); k = k + 1;'),
+                 dict(before_re=r'let mut report = enforcer\.into_report\(\);', label='C07:a_breach_is_reported_for_the_first_event_the_independent_count_rejects',
+                      text='assert(!accepted(count_of(evs, k - 1, per), evs[k - 1]->Ok_0, budget, per) && rejected_for(breach, count_of(evs, k - 1, per), evs[k - 1]->Ok_0, budget, per));')],
+         ensures=[('C07:a_clean_report_is_the_independent_count_of_every_event_of_the_text', '''({ let evs = parsed_events(input@); let per = policy == EnforcingPolicy::PerDocument;
+                r is Ok && r->Ok_0.breached is None ==> (forall|i: int| 0 <= i < evs.len() ==> (#[trigger] evs[i]) is Ok)
+                    && ({ let a = count_of(evs, evs.len() as int, per); let rep = r->Ok_0;
+                          rep.events == a.events && rep.aliases == a.aliases && rep.nodes == a.nodes && rep.total_scalar_bytes == a.scalar_bytes
+                          && rep.merge_keys == a.merge_keys && rep.documents == a.documents && rep.max_depth == a.max_depth && rep.anchors == a.anchors.len()
+                          && within(a, budget, per) }) })'''),
+                  ('C07:a_scan_error_is_passed_on', '''r is Err ==> exists|i: int| 0 <= i < parsed_events(input@).len() && (#[trigger] parsed_events(input@)[i]) is Err''')],
+         loops={1: dict(header=r'^while let Some\(item\) = parser\.next_item\(\)$', invariant=[
+                    ('position', '0 <= k <= evs.len() && parser.pending() =~= evs.skip(k) && evs == parsed_events(input@) && per == (policy == EnforcingPolicy::PerDocument)'),
+                    ('all_ok_so_far', 'forall|i: int| 0 <= i < k ==> (#[trigger] evs[i]) is Ok'),
+                    ('C07:the_enforcer_state_is_the_independent_count_of_the_events_so_far', '''enforcer.abs() =~~= count_of(evs, k, per) && enforcer.inv() && within(enforcer.abs(), budget, per)
+                        && enforcer.budget == budget && enforcer.per_doc() == per && enforcer.report.breached is None'''),
+                    ('limits', '''budget.max_events < usize::MAX && budget.max_aliases < usize::MAX && budget.max_nodes < usize::MAX
+                        && budget.max_merge_keys < usize::MAX && budget.max_documents < usize::MAX && budget.max_depth < usize::MAX''')],
+                        ensures=[('every_event_was_counted', 'k == evs.len()')])},
+         canaries=['C07:a_clean_report_is_the_independent_count_of_every_event_of_the_text']),
+    dict(src=B, path='fn parse_yaml', props=['C07'],
+         rewrites=[(r'Result<bool, ScanError>', 'Result<bool, ScanErr>', 1, 'R6')],
+         requires=[('limits_below_the_machine_maximum', '''budget.max_events < usize::MAX && budget.max_aliases < usize::MAX && budget.max_nodes < usize::MAX
+                        && budget.max_merge_keys < usize::MAX && budget.max_documents < usize::MAX && budget.max_depth < usize::MAX''')],
+         ensures=[('value', 'true')]),
 ]
